@@ -14,6 +14,7 @@ import (
 	"path/filepath"
 	"sort"
 	"strings"
+	"time"
 
 	"verifharness/internal/common"
 )
@@ -102,6 +103,13 @@ func main() {
 	ctx := &Ctx{Prop: *prop, Tier: *tier, Seed: *seed, Rng: rand.New(rand.NewSource(*seed)),
 		Res: common.NewResult(*prop, *tier, *seed), Verif: *verif, Replay: *replay}
 	ctx.Findings = loadFindings(*verif, *prop)
+	if *replay == "" {
+		limit := 60 * time.Second
+		if *tier == "thorough" {
+			limit = 120 * time.Second
+		}
+		guardInit(*verif, *prop, limit)
+	}
 	if err := f(ctx); err != nil {
 		fmt.Fprintf(os.Stderr, "CHECK-ERROR drive %s: %v\n", *prop, err)
 		os.Exit(2)
